@@ -258,31 +258,49 @@ def run(ctx: Ctx) -> dict:
         ctx.violate(clause, dict(key_of(callsl, g), clause=clause),
                     {"calls": [callsl[i] for i in g["calls"]], "schedule": e["order"], "outs": e["outs"],
                      "solo": e["solo"]})
-    # line-granularity sweep (bounded preemption) on a sample of groups
-    sample = [g for g in groups if len(g["calls"]) == 2]
-    sample = rng.sample(sample, min(len(sample), 30 if ctx.quick else 300))
-    counts = thr_jobs(ctx, [{"mode": "count", "calls": [callsl[i] for i in g["calls"]]} for g in sample], "cnt")
+    # line-granularity sweep: for selected pairs, SYSTEMATICALLY every schedule of the shape
+    # "A runs k lines, B runs to completion, A finishes" (and with the roles swapped) - the shape of
+    # every write/overwrite/read race - over all (thorough) or evenly spaced (quick) split points k.
+    # This does not depend on what the access recorder can see (module-level state, class attributes).
+    fam = {}
+    for i, c in enumerate(callsl):
+        fam.setdefault(c["op"] + ":" + text(c.get("cc") or c.get("country") or (c.get("t") or [])[:2] or []), []).append(i)
+    pairs = []
+    for key, idxs in sorted(fam.items()):
+        if len(idxs) >= 2:
+            pairs.append((idxs[0], idxs[1]))            # same operation, same country, different inputs
+            if len(idxs) >= 3:
+                pairs.append((idxs[1], idxs[2]))
+    keys = sorted(fam)
+    for _ in range(20 if ctx.quick else 150):            # different operations
+        a, b = rng.sample(keys, 2)
+        pairs.append((rng.choice(fam[a]), rng.choice(fam[b])))
+    if ctx.quick and len(pairs) > 70:
+        pairs = pairs[:35] + rng.sample(pairs[35:], 35)
+    counts = thr_jobs(ctx, [{"mode": "count", "calls": [callsl[a], callsl[b]]} for a, b in pairs], "cnt")
     ljobs, lmeta = [], []
-    for g, c in zip(sample, counts):
+    for (a, b), c in zip(pairs, counts):
         n1, n2 = (x["lines"] for x in c["count"])
-        for _ in range(4 if ctx.quick else 20):
-            a = rng.randrange(0, n1 + 1)
-            b = rng.randrange(0, n2 + 1)
-            turns = [[1, a], [2, b], [1, n1 + 5], [2, n2 + 5]] if rng.random() < 0.5 else \
-                [[2, b], [1, a], [2, n2 + 5], [1, n1 + 5]]
-            ljobs.append({"mode": "lines", "calls": [callsl[i] for i in g["calls"]], "turns": turns})
-            lmeta.append((g, turns))
+        per_dir = 24 if ctx.quick else 10 ** 6
+        for first, nfirst in ((1, n1), (2, n2)):
+            step = max(1, nfirst // per_dir)
+            for k in range(0, nfirst + 1, step):
+                other = 2 if first == 1 else 1
+                turns = [[first, k], [other, 10 ** 6], [first, 10 ** 6]]
+                ljobs.append({"mode": "lines", "calls": [callsl[a], callsl[b]], "turns": turns})
+                lmeta.append(((a, b), turns))
     lres = thr_jobs(ctx, ljobs, "lines")
     line_runs = 0
-    for (g, turns), r in zip(lmeta, lres):
+    for ((a, b), turns), r in zip(lmeta, lres):
         if r["stuck"]:
             continue
         line_runs += 1
         outs = [canon(o) for o in r["outs"]]
-        want = [solo_out[i] for i in g["calls"]]
+        want = [solo_out[a], solo_out[b]]
         if outs != want:
+            g = {"calls": [a, b]}
             ctx.violate("call-differs-from-solo", dict(key_of(callsl, g), granularity="line"),
-                        {"calls": [callsl[i] for i in g["calls"]], "turns": turns, "outs": outs, "solo": want})
+                        {"calls": [callsl[a], callsl[b]], "turns": turns, "outs": outs, "solo": want})
     ctx.evaluations += len(ljobs)
     n_racy = len(racy)
     ctx.samples = [{"calls": [callsl[i] for i in groups[0]["calls"]], "threads": groups[0]["threads"],
